@@ -270,7 +270,7 @@ func runEnv(r *hx.Run, c hx.Case) {
 			r.Fail(c.ID, cls, fmt.Sprintf("%q: %v (intended mailbox %q)", l, err, mbString(want, i)))
 			continue
 		}
-		if i < len(want) && pl.Box != want[i] {
+		if i < len(want) && !addrx.SameMailbox(pl.Box, want[i]) {
 			// the line is well-formed but names another mailbox (e.g. a quoting routine that rewrites bytes)
 			cls := "path-denotes-other-mailbox"
 			r.Fail(c.ID, cls, fmt.Sprintf("%q denotes %q, intended %q", l, pl.Box.String(), want[i].String()))
@@ -766,6 +766,7 @@ func runEnvSeq(r *hx.Run, c hx.Case) {
 		exp = append(exp, want[k]...)
 	}
 	var got []string
+	var gotBoxes []addrx.Mailbox
 	u8 := false
 	for _, e := range trace {
 		if e.Verb == "MAIL" {
@@ -780,6 +781,7 @@ func runEnvSeq(r *hx.Run, c hx.Case) {
 			return
 		}
 		got = append(got, pl.Box.String())
+		gotBoxes = append(gotBoxes, pl.Box)
 	}
 	if len(got) == 0 {
 		refusable := len(exp) == 0
@@ -798,7 +800,11 @@ func runEnvSeq(r *hx.Run, c hx.Case) {
 	for _, mb := range exp {
 		es = append(es, mb.String())
 	}
-	if strings.Join(got, "\x00") != strings.Join(es, "\x00") {
+	same := len(gotBoxes) == len(exp)
+	for i := 0; same && i < len(exp); i++ {
+		same = addrx.SameMailbox(gotBoxes[i], exp[i])
+	}
+	if !same {
 		r.Fail(c.ID, "rcpt-not-the-mailbox-that-was-set", fmt.Sprintf("RCPT lines denote %q, the calls set %q", got, es))
 	}
 }
@@ -919,6 +925,25 @@ func Run(r *hx.Run, replay []hx.Case) {
 		runCase(r, envCase(r, caps, nil, "sender@origin.test",
 			[]string{`"john` + np + `doe smith"@rcpt.test`, `"` + np + ` "@x.test`, "a" + np + "b@x.test"}))
 		runCase(r, envCase(r, caps, nil, `"bounce `+np+`"@origin.test`, []string{"plain@x.test"}))
+	}
+	// '@' inside a quoted local part followed by upper case, several '@', mixed-case local parts and domains, and
+	// recipients that differ only in letter case: each goes out in its own spelling (local part byte for byte)
+	for _, caps := range []string{"110", "000", "h"} {
+		runCase(r, envCase(r, caps, nil, `"Jane@HQ"@Example.COM`, []string{`"a@B"@Example.COM`, `"Ann@X@Yz"@MAIL.Example.Org`, "McDonald.Ian@Example.COM", `"@TOP"@x.test`}))
+		runCase(r, envCase(r, caps, nil, "Sender.Name@Origin.Test", addrx.CaseVariants("Alice", "example.com")))
+		runCase(r, envCase(r, caps, nil, "sender@origin.test", append(addrx.CaseVariants("Bob.Builder", "Example.Org"), `"Jane@HQ"@example.com`, `"jane@hq"@example.com`)))
+	}
+	step0 := func(name string, args ...string) string {
+		parts := []string{name}
+		for _, a := range args {
+			parts = append(parts, hx.Hex([]byte(a)))
+		}
+		return strings.Join(parts, "/")
+	}
+	for _, slot := range []string{"To", "Cc", "Bcc"} {
+		runCase(r, hx.Case{ID: r.NewID(), Kind: "envseq", Args: []string{"110", strings.Join([]string{
+			step0(slot, `"Jane@HQ"@Example.COM`, "Alice@example.com"), step0("Add"+slot, "alice@example.com"),
+			step0("Add"+slot+"Format", "Upper", "ALICE@EXAMPLE.COM"), step0("Add"+slot, `"a@B@C"@x.test`)}, ",")}})
 	}
 	runCase(r, heloCase(r, "my host extra", false))
 	for _, n := range heloNames {
@@ -1049,6 +1074,13 @@ func Run(r *hx.Run, replay []hx.Case) {
 		rcpts := make([]string, k)
 		for j := range rcpts {
 			rcpts[j] = genAddr(r, rng, u8)
+		}
+		if rng.Intn(6) == 0 {
+			if mb, ok := addrx.IntendedMailbox(rcpts[0]); ok && !addrx.NeedsQuoting(mb.Local) {
+				v := addrx.CaseVariants(mb.Local, mb.Domain)
+				rcpts = append(rcpts, v[1+rng.Intn(2)])
+				r.Dist["env:case-variant-duplicate"]++
+			}
 		}
 		r.Dist["caps:"+caps]++
 		runCase(r, envCase(r, caps, genDSN(rng), from, rcpts))
